@@ -9,7 +9,7 @@ From ClapModel Require Import ParseProofs.Totality ParseProofs.Provenance ParseP
 From ClapModel Require Import ParseProofs.Actions ParseProofs.Relations ParseProofs.RelationsComplete ParseProofs.Unparse ParseProofs.UnparseTop ParseProofs.UnparseSub
                               ParseProofs.UnparseTree ParseProofs.UnparseX ParseProofs.UnparseXTree ParseProofs.UnparseLift
                               ParseProofs.NoSpurious ParseProofs.NoSpuriousTree ParseProofs.NoSpuriousCheck ParseProofs.NoSpuriousExamples.
-From ClapModel Require Gen.SettingsTables ParseProofs.TablesSettings.
+From ClapModel Require Gen.SettingsTables ParseProofs.TablesSettings ParseProofs.TablesSettingsTree.
 From Coq Require Import ZArith QArith String List.
 From RecordUpdate Require Import RecordSet.
 Import RecordSetNotations.
@@ -869,3 +869,21 @@ Theorem C10_help_subcommand_table : forall p,
   TablesSettings.tbl_help_subcommand p = Some (fix_help_unset (help_subcommand p)).
 Proof. exact TablesSettings.help_subcommand_table. Qed.
 Print Assumptions C10_help_subcommand_table.
+
+(** ... and in the REAL build order: a setting in the global record of the root of an unbuilt tree (class [plain]: nothing
+    built yet, no short-flag subcommands -- C01's class) is set at every level the parser can descend into
+    ([build_self], then [build_subcommand] repeatedly), to any depth; PropagateVersion is excluded because the generated
+    `help` subcommand clears it in its own global record ([pv_free_fields] = the 23 other model fields) *)
+Theorem C10_global_setting_set_at_every_built_level : forall f, In f TablesSettingsTree.pv_free_fields ->
+  forall fuel x, plain x = true -> TablesSettings.sf_get f (c_gset x) = true ->
+  TablesSettingsTree.set_all (TablesSettings.sf_get f) fuel (build_self x).
+Proof. exact TablesSettingsTree.global_setting_set_at_every_built_level. Qed.
+Print Assumptions C10_global_setting_set_at_every_built_level.
+
+Theorem C10_global_setter_set_at_every_built_level : forall n v f,
+  In n TablesSettings.spec_names -> TablesSettings.find_setter n = Some (v, true) ->
+  TablesSettings.field_by_variant v = Some f -> In f TablesSettingsTree.pv_free_fields ->
+  forall fuel x x', TablesSettings.spec_apply n x = Some x' -> plain x' = true ->
+  TablesSettingsTree.set_all (TablesSettings.sf_get f) fuel (build_self x').
+Proof. exact TablesSettingsTree.global_setter_set_at_every_built_level. Qed.
+Print Assumptions C10_global_setter_set_at_every_built_level.
